@@ -291,6 +291,10 @@ _kv_drink.adjacent = True
 add(Gram("kv", Level([Named("switch", "p", ["pour"]), Cmds([_kv_drink], optional=True)]), short_flags="pc",
          note="repeated adjacent subcommand with its own version (the Level describes names and the command chain only; not used differentially)"))
 CORPUS["kv"].adjacent_cmds = True
+add(Gram("cr", Level([Cmds([Cmd(["7"], _c8_seven)], alt=Pos("many"), alt_tag=lambda v: Adt("Alt8", 1, (v,)))], make=lambda v: v[0]),
+         short_flags="z", note="top-level choice [repeated positional | command `7`]: the positional branch is listed first and could swallow the command name"))
+C01_GRAMMARS.append("cr")
+
 add(Gram("k5", None, short_flags="rs", short_args="w", names=("rsw", ["rect", "sw", "width"], []), note="switch, then optional adjacent group (flag + argument), then optional positional"))
 
 _hd_secret = Named("switch", "s", ["secret"])
